@@ -23,7 +23,7 @@ var commonAssumptions = []string{
 func init() {
 	prop(&PropDef{
 		ID:          "C01",
-		Rules:       []string{"TXN-1", "TXN-2", "SHAPE-1", "TAB-2", "UPS-1", "EXT-1", "WIN-3", "WIN-4", "WIN-1", "OWN-5", "OWN-8", "ATOM-2", "MOD-1", "IDX-1", "ATOM-5", "ACC-1", "LOCK-4", "ATOM-6", "TXN-5", "NS-1", "OWN-2", "FLAG-4", "ARG-1"},
+		Rules:       []string{"TXN-1", "TXN-2", "SHAPE-1", "TAB-2", "UPS-1", "EXT-1", "WIN-3", "WIN-4", "WIN-1", "OWN-5", "OWN-8", "ATOM-2", "MOD-1", "IDX-1", "ATOM-5", "ACC-1", "LOCK-4", "ATOM-6", "TXN-5", "NS-1", "OWN-2", "FLAG-4", "ARG-1", "TXN-6"},
 		Explanation: "Structural necessary conditions of 'CRUD equals a sequential model', decided for every path/site of the resolved program: writes are never issued on an unlocked snapshot transaction (they would be silently discarded), every data access goes through a transaction that honours the session, the driver's counts and ids derive from the right engine result lists, every documented operator is wired, the upsert fallback fires exactly on 'nothing matched', and the find/update/delete window is sort -> filter(limit+skip) -> skip. Model equivalence itself (what each operator computes on each input) is a runtime relation and is NOT decided.",
 		Decided:     []string{"bsonkit.Set never moves a document to another position", "$in/$or upsert extraction only for a single alternative (len interval at each Put/Process site)", "lock flag vs. methods called at all 19 useTransaction sites", "no back door to Engine.catalog / NewTransaction", "provenance of MatchedCount/ModifiedCount/DeletedCount/Inserted*/Upserted*", "operator registries complete", "upsert condition is len(Matched)==0 && upsert", "window composition in Find/Replace/Update/Delete"},
 		NotDecided:  []string{"that each operator computes MongoDB's result on each input", "contents of collections after arbitrary histories", "error-or-success agreement with a reference model"},
@@ -31,7 +31,7 @@ func init() {
 	})
 	prop(&PropDef{
 		ID:          "C02",
-		Rules:       []string{"ATOM-1", "ATOM-2", "ATOM-3", "ATOM-4", "OWN-1", "OWN-2", "OWN-8", "LOG-1", "PUB-1", "ERR-1", "ACC-1", "ATOM-5", "OWN-10", "ERR-2", "OWN-3", "ATOM-6", "ATOM-7"},
+		Rules:       []string{"ATOM-1", "ATOM-2", "ATOM-3", "ATOM-4", "OWN-1", "OWN-2", "OWN-8", "LOG-1", "PUB-1", "ERR-1", "ACC-1", "ATOM-5", "OWN-10", "ERR-2", "OWN-3", "ATOM-6", "ATOM-7", "TXN-6"},
 		Explanation: "The mechanism the property names - clone catalog + namespace + oplog, run, assign back only on success - checked on every path of every write method of *Transaction: no store of t.catalog/t.dirty is reachable from a failure edge and nothing fallible follows it; in Insert/Bulk the per-item clones are made inside the loop, assigned back as a pair on the success edge only, and every successful exit passes the final store; every mutation in package lungo happens on a fresh clone (catalog map and collections); mongokit.Collection validates before it mutates; the change event lives in the same discarded/kept clone pair.",
 		Decided:     []string{"cloned collections that were written to are installed before the publish store", "failure edges never reach the state store (26 stores)", "per-item clone/assign-back discipline in Insert and Bulk", "all catalog-map and collection mutations are on fresh clones", "validation dominates mutation in Collection write methods", "event append is paired with the data change"},
 		NotDecided:  []string{"aliasing that the origin tracking (bound 1 through unexported helpers) does not see", "byte-level equality of database states before/after a failed call"},
@@ -79,7 +79,7 @@ func init() {
 	})
 	prop(&PropDef{
 		ID:          "C08",
-		Rules:       []string{"LOG-1", "LOG-2", "LOG-3", "LOG-4", "LOG-5", "RET-1", "MOD-1", "TAB-6", "ATOM-1", "ATOM-2", "ATOM-4", "OWN-2", "LOCK-3", "PUB-1", "OWN-10", "RET-2", "ACC-1", "UPD-4", "LOCK-5", "OWN-8", "LOG-6"},
+		Rules:       []string{"LOG-1", "LOG-2", "LOG-3", "LOG-4", "LOG-5", "RET-1", "MOD-1", "TAB-6", "ATOM-1", "ATOM-2", "ATOM-4", "OWN-2", "LOCK-3", "PUB-1", "OWN-10", "RET-2", "ACC-1", "UPD-4", "LOCK-5", "OWN-8", "LOG-6", "UPD-7"},
 		Explanation: "The change log as a pairing discipline: each successful collection mutation in the Transaction helpers is followed on every success path by an append of the matching event kind for the documents of the matching result list, with the error propagated, into the oplog clone that is published together with the data; only those helpers may mutate documents; failed/no-op writes store nothing (ATOM); update events pair a document with its own change record; retention removes List[0] of a cloned oplog only; the timestamp generator state is mutex-protected; event kinds written and read agree.",
 		Decided:     []string{"drop predicate of Clean over all loop-body paths (size protection exact, age protection, forced-drop clause)", "append after every mutation kind, placement and error propagation", "who may mutate", "prefix-only retention on a clone, run before store/publish", "Modified/Changes lock-step", "op strings"},
 		NotDecided:  []string{"replay equivalence on concrete histories", "content of updateDescription", "retention arithmetic (min/max size and age)", "numeric monotonicity of ids"},
@@ -103,7 +103,7 @@ func init() {
 	})
 	prop(&PropDef{
 		ID:          "C11",
-		Rules:       []string{"TAB-2", "TAB-5", "ATOM-3", "NUM-3", "LOG-4", "OWN-4u", "MOD-1", "UPD-1", "UPD-2", "UPD-3", "UPD-4", "FLAG-1", "FLAG-2", "REC-1", "ASSUME-1", "WIN-2", "UPS-1", "NIL-1", "UPD-5", "REC-2", "NUM-7", "MOD-2", "NUM-9", "UPD-6"},
+		Rules:       []string{"TAB-2", "TAB-5", "ATOM-3", "NUM-3", "LOG-4", "OWN-4u", "MOD-1", "UPD-1", "UPD-2", "UPD-3", "UPD-4", "FLAG-1", "FLAG-2", "REC-1", "ASSUME-1", "WIN-2", "UPS-1", "NIL-1", "UPD-5", "REC-2", "NUM-7", "MOD-2", "NUM-9", "UPD-6", "UPD-7"},
 		Explanation: "Structural parts of update semantics: all 15 operators are registered and assert the context type their only Process site supplies; bsonkit.Add/Mul return the promoted static type for each of the 16 type pairs; an update is rejected as a whole (apply errors and the _id check dominate every index/Documents mutation); updates are applied to clones; modified-count filtering keeps documents and change records in lock step. Integer overflow (NUM-3) is a recorded known finding. What each operator computes on each document and idempotence are NOT decided.",
 		Decided:     []string{"$addToSet scans the array it grows", "no never-set flag in operator code", "operator wiring", "numeric promotion table (32 cases)", "reject-as-a-whole ordering", "apply-on-clone"},
 		NotDecided:  []string{"operator results ($push modifiers, $pull conditions, positional paths)", "idempotence laws", "field order preservation"},
@@ -119,7 +119,7 @@ func init() {
 	})
 	prop(&PropDef{
 		ID:          "C13",
-		Rules:       []string{"WIN-1", "WIN-2", "WIN-3", "WIN-4", "WIN-5", "WIN-6", "NUM-1", "NUM-5", "WIN-7", "WIN-8", "SEM-7", "ARG-1"},
+		Rules:       []string{"WIN-1", "WIN-2", "WIN-3", "WIN-4", "WIN-5", "WIN-6", "NUM-1", "NUM-5", "WIN-7", "WIN-8", "SEM-7", "ARG-1", "WIN-9"},
 		Explanation: "Structural parts of sort/skip/limit: in-place sorts only ever permute lists made in the same function (a sorted find cannot reorder the collection), document sorts are stable, the window is composed as sort(full list) -> filter(limit+skip under limit>0) -> drop skip under a bounds guard in all four siblings, and no allocation is sized by the caller's limit. The ordering produced by sortKey/Order, window arithmetic on values and distinct de-duplication are NOT decided.",
 		Decided:     []string{"Set keeps insertion order", "sortKey operand and update table over all loop-body paths", "no shared list is sorted in place", "stable sorts", "window composition in Find/Replace/Update/Delete", "bounded preallocation"},
 		NotDecided:  []string{"the order relation itself (per-direction array keys, missing as null)", "distinct"},
